@@ -31,7 +31,20 @@ pub(super) fn derive_schema(input: TokenStream) -> syn::Result<TokenStream> {
                     ::ohkami::openapi::null()
                 }
             }
-            (None, None, None) => schema_of_fields(s.fields, &container_attrs)?,
+            (None, None, None) => match &*container_attrs.serde.tag {
+                Some(t) if matches!(s.fields, Fields::Named(_)) => {/* serde writes ( and doesn't read ) the name of the struct as `t` */
+                    let t = LitStr::new(t, Span::call_site());
+                    let n = match container_attrs.serde.rename.value()? {
+                        Some((span, rename)) => LitStr::new(rename, span),
+                        None => LitStr::new(&name.unraw().to_string(), name.span())
+                    };
+                    let schema = schema_of_fields(s.fields, &container_attrs)?;
+                    quote! {
+                        #schema.optional(#t, ::ohkami::openapi::string().enumerates([#n]))
+                    }
+                }
+                _ => schema_of_fields(s.fields, &container_attrs)?
+            }
             (Some(t), _, _) | (_, Some(t), _) | (_, _, Some(t)) => {
                 let t = syn::parse_str::<Type>(t)?;
                 quote! {
